@@ -126,6 +126,8 @@ func keysOf(m map[string]bool) string {
 }
 
 func runC07(e *Engine, r *Report) {
+	// replica agreement across membership changes: a promoted member inherits only acknowledged progress (C02)
+	borrow(e, r, "C02", "WMC-match-ack")
 	const mT = "(*internal/rsm.membership)."
 	apply := r.need(mT + "apply")
 	hcc := r.need(mT + "handleConfigChange")
